@@ -109,6 +109,14 @@ class SymArray(np.ndarray):
         res = func(*a2, **k2)
         return _rewrap_deep(res)
 
+    def __getitem__(self, key):
+        # a mask computed from symbolic comparisons (object array of bool / SymBool): realise it entry by entry
+        # (each SymBool forks the path explorer)
+        if isinstance(key, np.ndarray) and key.dtype == object and key.size and \
+                all(isinstance(k, (bool, np.bool_, SymBool)) for k in key.reshape(-1)):
+            key = np.array([bool(k) for k in key.reshape(-1)], dtype=bool).reshape(key.shape)
+        return super().__getitem__(key)
+
     def __bool__(self):
         if self.size == 1:
             return bool(self.reshape(-1).view(np.ndarray)[0])
